@@ -256,21 +256,64 @@ Definition block_dtype (line : str) : option str :=
   | [] => None
   end.
 
-(* the attributes of a '<tag k="v" ...>' line: {k: v[1:-1] for k, v in [key.split('=') for key in tmp.split(' ')[1:]]};
-   a piece that does not split into exactly two parts at '=' raises (e.g. an attribute value with a blank in it) *)
-Definition key_piece (piece : str) : option (str * str) :=
-  match split_on 61 piece with
-  | [k; v] => Some (k, removelast (tl v))
-  | _ => None
+(* the attributes of a '<tag k=QUOTE v QUOTE ...>' line (read_qlc after b56b54e):
+     keys = {k: v for k, _, v in re.findall(r'''(\S+?)=([QUOTE APOSTROPHE])(.*?)\2''', tmp[len(dtype):])}
+   i.e. scanning from the left: a shortest non-empty run of non-blank characters followed by '=', a quote character
+   and a value up to the next occurrence of the same quote; blanks inside the value are fine; a later attribute
+   with the same name wins; a tag without any such attribute gives the empty dictionary (nothing raises). *)
+Definition is_quote (c : Z) : bool := (c =? 34) || (c =? 39).
+Fixpoint split_at (c : Z) (s : str) : option (str * str) :=           (* s = v ++ c :: rest, first c *)
+  match s with
+  | [] => None
+  | x :: r => if x =? c then Some ([], r)
+              else match split_at c r with Some (v, rest) => Some (x :: v, rest) | None => None end
+  end.
+(* key = the non-blank characters consumed so far (reversed, non-empty): try '=QUOTE value QUOTE' here, else go on *)
+Fixpoint match_here (key : str) (s : str) : option (str * str * str) :=
+  match s with
+  | [] => None
+  | c :: r =>
+      match (if c =? 61 then match r with
+                              | q :: r' => if is_quote q then split_at q r' else None
+                              | [] => None
+                              end
+             else None) with
+      | Some (v, rest) => Some (rev key, v, rest)
+      | None => if is_space c then None else match_here (c :: key) r
+      end
+  end.
+Definition match_start (s : str) : option (str * str * str) :=
+  match s with
+  | [] => None
+  | c :: r => if is_space c then None else match_here [c] r
+  end.
+(* re.findall: leftmost, non-overlapping; skip = characters still covered by the last match *)
+Fixpoint findall_attrs (skip : nat) (s : str) : list (str * str) :=
+  match s with
+  | [] => []
+  | _ :: r =>
+      match skip with
+      | S k => findall_attrs k r
+      | O => match match_start s with
+             | Some (k, v, rest) => (k, v) :: findall_attrs (length r - length rest) r
+             | None => findall_attrs 0 r
+             end
+      end
   end.
 Definition block_keys (line : str) : option (list (str * str)) :=
   match line with
   | _ :: r => match take_until 62 r with
-              | Some tmp => if memc 32 tmp then all_some (map key_piece (tl (split_on 32 tmp))) else Some []
+              | Some tmp => if memc 32 tmp
+                            then Some (findall_attrs 0 (skipn (length (hd [] (split_on 32 tmp))) tmp))
+                            else Some []
               | None => None
               end
   | [] => None
   end.
+(* keys[k] of the dictionary built from the pairs: the last pair with that name *)
+Fixpoint assoc_first (k : str) (l : list (str * str)) : option str :=
+  match l with [] => None | (k', v) :: r => if str_eqb k k' then Some v else assoc_first k r end.
+Definition assoc_last (k : str) (l : list (str * str)) : option str := assoc_first k (rev l).
 
 Record block := mk_block { b_head : str; b_dtype : str; b_body : list str }.
 Record racc := mk_racc {
